@@ -158,3 +158,171 @@ theorem keepsF_insertSynsets (l : Lexicon) (c : Ctx) : KeepsF (fun b => insertSy
       (keepsF_bind _ _ (keepsF_fold _ (keeps_synsetStep c) _) (keepsF_fold _ (keeps_piliStep c) _)) b b' h
 
 end WnVerif.Db
+
+namespace WnVerif.Db
+open WnVerif WnVerif.Doc
+
+/-! ### the same for the `synsets` and `ilis` tables (steps that run after `_insert_synsets`) -/
+
+def KeepsY {α} (f : Db → α → R Db) : Prop := ∀ b a b', f b a = .ok b' → b'.synsets = b.synsets ∧ b'.ilis = b.ilis
+def KeepsYF (f : Db → R Db) : Prop := ∀ b b', f b = .ok b' → b'.synsets = b.synsets ∧ b'.ilis = b.ilis
+
+theorem fold_keepsY {α} (f : Db → α → R Db) (hf : KeepsY f) : KeepsY (fun db (l : List α) => l.foldlM f db) := by
+  intro b l b' h
+  refine foldlM_ok_induct f (fun _ b b' => b'.synsets = b.synsets ∧ b'.ilis = b.ilis) ?_ ?_ l b b' h
+  · intro b; exact ⟨rfl, rfl⟩
+  · intro a t b b1 b' h1 _ ih
+    obtain ⟨e1, e2⟩ := hf b a b1 h1
+    exact ⟨ih.1.trans e1, ih.2.trans e2⟩
+
+theorem keepsYF_bind (f g : Db → R Db) (hf : KeepsYF f) (hg : KeepsYF g) : KeepsYF (fun b => f b >>= g) := by
+  intro b b' h
+  simp only [bind, Except.bind] at h
+  cases h1 : f b with
+  | error e => rw [h1] at h; simp at h
+  | ok b1 =>
+    rw [h1] at h
+    obtain ⟨a1, a2⟩ := hf b b1 h1
+    obtain ⟨c1, c2⟩ := hg b1 b' h
+    exact ⟨c1.trans a1, c2.trans a2⟩
+
+theorem keepsYF_fold {α} (f : Db → α → R Db) (hf : KeepsY f) (l : List α) : KeepsYF (fun b => l.foldlM f b) :=
+  fun b b' h => fold_keepsY f hf b l b' h
+
+theorem keepsY_nested {α β} (items : α → List β) (f : α → Db → β → R Db) (hf : ∀ a, KeepsY (f a)) :
+    KeepsY (fun db a => (items a).foldlM (f a) db) :=
+  fun b a b' h => fold_keepsY (f a) (hf a) b (items a) b' h
+
+theorem keepsY_entryStep (c : Ctx) : KeepsY (entryStep c) := by keeps_step entryStep
+theorem keepsY_pronStep (c : Ctx) (e : Entry) (fid : Option String) (rank : Option Nat) : KeepsY (pronStep c e fid rank) := by keeps_step pronStep
+theorem keepsY_tagStep (c : Ctx) (e : Entry) (fid : Option String) (rank : Option Nat) : KeepsY (tagStep c e fid rank) := by keeps_step tagStep
+theorem keepsY_senseStep (l : Lexicon) (c : Ctx) (dr : Nat) (e : Entry) : KeepsY (senseStep l c dr e) := by keeps_step senseStep
+theorem keepsY_adjStep (c : Ctx) : KeepsY (adjStep c) := by keeps_step adjStep
+theorem keepsY_countStep (c : Ctx) (s : Sense) : KeepsY (countStep c s) := by keeps_step countStep
+theorem keepsY_sbStep (c : Ctx) : KeepsY (sbStep c) := by keeps_step sbStep
+theorem keepsY_sbSenseStep (c : Ctx) (sb : Sb) : KeepsY (sbSenseStep c sb) := by keeps_step sbSenseStep
+theorem keepsY_synRelStep (c : Ctx) (ss : Synset) : KeepsY (synRelStep c ss) := by keeps_step synRelStep
+theorem keepsY_senseRelStep (c : Ctx) : KeepsY (senseRelStep c) := by keeps_step senseRelStep
+theorem keepsY_senseSynRelStep (c : Ctx) : KeepsY (senseSynRelStep c) := by keeps_step senseSynRelStep
+theorem keepsY_defStep (c : Ctx) (ss : Synset) : KeepsY (defStep c ss) := by keeps_step defStep
+theorem keepsY_senseExampleStep (c : Ctx) (s : Sense) : KeepsY (senseExampleStep c s) := by keeps_step senseExampleStep
+theorem keepsY_synsetExampleStep (c : Ctx) (ss : Synset) : KeepsY (synsetExampleStep c ss) := by keeps_step synsetExampleStep
+
+theorem addForm_keepsY (db db1 : Db) (norm : String → String) (lexid er : Nat) (id : Option String) (form : String)
+    (script : Option String) (rank : Nat) (h : addForm db norm lexid er id form script rank = .ok db1) :
+    db1.synsets = db.synsets ∧ db1.ilis = db.ilis := by
+  unfold addForm at h
+  simp only [bind, Except.bind, pure, Except.pure] at h
+  split at h
+  · simp [throw, throwThe, MonadExcept.throw] at h
+  · simp only [Except.ok.injEq] at h; subst h; exact ⟨rfl, rfl⟩
+
+theorem keepsY_formStep (norm : String → String) (c : Ctx) (e : Entry) : KeepsY (formStep norm c e) := by
+  intro b fi b' h
+  unfold formStep at h
+  split at h
+  · simp only [Except.ok.injEq] at h; subst h; exact ⟨rfl, rfl⟩
+  · cases he : entryRow b e.id (c.lid e.id) with
+    | none => simp [he, need, bind, Except.bind] at h
+    | some er =>
+      simp only [he, need, bind, Except.bind] at h
+      exact addForm_keepsY _ _ _ _ _ _ _ _ _ h
+
+theorem keepsY_entryFormsStep (norm : String → String) (c : Ctx) : KeepsY (entryFormsStep norm c) := by
+  intro b e b' h
+  unfold entryFormsStep at h
+  simp only [bind, Except.bind] at h
+  cases hx : e.external with
+  | true =>
+    simp only [hx, Bool.not_true, Bool.false_eq_true, if_false, pure, Except.pure] at h
+    exact fold_keepsY _ (keepsY_formStep norm c e) b e.forms.zipIdx b' h
+  | false =>
+    simp only [hx, Bool.not_false, if_true] at h
+    cases hl : e.lemma with
+    | none => simp [hl, need] at h
+    | some lem =>
+      simp only [hl, need] at h
+      cases he : entryRow b e.id (c.lid e.id) with
+      | none => simp [he] at h
+      | some er =>
+        simp only [he] at h
+        cases ha : addForm b norm c.lexid er none lem.form lem.script 0 with
+        | error x => simp [ha] at h
+        | ok b1 =>
+          simp only [ha] at h
+          have k1 := addForm_keepsY _ _ _ _ _ _ _ _ _ ha
+          have k2 := fold_keepsY _ (keepsY_formStep norm c e) b1 e.forms.zipIdx b' h
+          exact ⟨k2.1.trans k1.1, k2.2.trans k1.2⟩
+
+theorem keepsYF_insertPronsTags (l : Lexicon) (c : Ctx) : KeepsYF (fun b => insertPronsTags b l c) := by
+  unfold insertPronsTags
+  apply keepsYF_bind
+  · apply keepsYF_fold
+    apply keepsY_nested (fun e => formLikes e) (fun e db fl => fl.2.2.1.foldlM (pronStep c e fl.1 fl.2.1) db)
+    intro e
+    exact fun b fl b' h => fold_keepsY _ (keepsY_pronStep c e fl.1 fl.2.1) b fl.2.2.1 b' h
+  · apply keepsYF_fold
+    apply keepsY_nested (fun e => formLikes e) (fun e db fl => fl.2.2.2.foldlM (tagStep c e fl.1 fl.2.1) db)
+    intro e
+    exact fun b fl b' h => fold_keepsY _ (keepsY_tagStep c e fl.1 fl.2.1) b fl.2.2.2 b' h
+
+theorem keepsYF_insertSenses (l : Lexicon) (c : Ctx) (dr : Nat) : KeepsYF (fun b => insertSenses b l c dr) := by
+  unfold insertSenses
+  apply keepsYF_bind
+  · apply keepsYF_fold
+    exact keepsY_nested (fun e => (localSenses e).zipIdx) (fun e => senseStep l c dr e) (fun e => keepsY_senseStep l c dr e)
+  · apply keepsYF_bind
+    · apply keepsYF_fold
+      exact keepsY_nested (fun e => localSenses e) (fun _ => adjStep c) (fun _ => keepsY_adjStep c)
+    · apply keepsYF_fold
+      apply keepsY_nested (fun (e : Entry) => e.senses) (fun _ db s => s.counts.foldlM (countStep c s) db)
+      intro _
+      exact fun b s b' h => fold_keepsY _ (keepsY_countStep c s) b s.counts b' h
+
+theorem keepsYF_insertSbs (sbs : List Sb) (c : Ctx) : KeepsYF (fun b => insertSbs b sbs c) := by
+  unfold insertSbs
+  apply keepsYF_bind
+  · exact keepsYF_fold _ (keepsY_sbStep c) sbs
+  · apply keepsYF_fold
+    exact keepsY_nested (fun (sb : Sb) => sb.senses) (fun sb => sbSenseStep c sb) (fun sb => keepsY_sbSenseStep c sb)
+
+theorem keepsYF_insertDefsExamples (l : Lexicon) (c : Ctx) : KeepsYF (fun b => insertDefsExamples b l c) := by
+  unfold insertDefsExamples
+  apply keepsYF_bind
+  · apply keepsYF_fold
+    exact keepsY_nested (fun (ss : Synset) => ss.definitions) (fun ss => defStep c ss) (fun ss => keepsY_defStep c ss)
+  · apply keepsYF_bind
+    · apply keepsYF_fold
+      apply keepsY_nested (fun (e : Entry) => e.senses) (fun _ db s => s.examples.foldlM (senseExampleStep c s) db)
+      intro _
+      exact fun b s b' h => fold_keepsY _ (keepsY_senseExampleStep c s) b s.examples b' h
+    · apply keepsYF_fold
+      exact keepsY_nested (fun (ss : Synset) => ss.examples) (fun ss => synsetExampleStep c ss) (fun ss => keepsY_synsetExampleStep c ss)
+
+theorem keepsYF_insertRelations (l : Lexicon) (c : Ctx) : KeepsYF (fun b => insertRelations b l c) := by
+  intro b b' h
+  unfold insertRelations at h
+  simp only [bind, Except.bind] at h
+  cases h1 : l.synsets.foldlM (fun db ss => ss.relations.foldlM (synRelStep c ss) db) b with
+  | error e => rw [h1] at h; simp at h
+  | ok b1 =>
+    rw [h1] at h
+    have k1 := keepsYF_fold _ (keepsY_nested (fun (ss : Synset) => ss.relations) (fun ss => synRelStep c ss) (fun ss => keepsY_synRelStep c ss)) l.synsets b b1 h1
+    simp only at h
+    split at h
+    · simp [throw, throwThe, MonadExcept.throw] at h
+    · cases h2 : List.foldlM (senseRelStep c) b1 ((allSenseRels l).filter (fun p => (l.entries.flatMap (fun e => e.senses.map (·.id))).contains p.2.target)) with
+      | error e => rw [h2] at h; simp at h
+      | ok b2 =>
+        rw [h2] at h
+        have k2 := keepsYF_fold _ (keepsY_senseRelStep c) _ b1 b2 h2
+        have k3 := keepsYF_fold _ (keepsY_senseSynRelStep c) _ b2 b' h
+        exact ⟨k3.1.trans (k2.1.trans k1.1), k3.2.trans (k2.2.trans k1.2)⟩
+
+theorem keepsYF_insertEntries (l : Lexicon) (c : Ctx) : KeepsYF (fun b => insertEntries b l c) :=
+  keepsYF_fold _ (keepsY_entryStep c) _
+
+theorem keepsYF_insertForms (norm : String → String) (l : Lexicon) (c : Ctx) : KeepsYF (fun b => insertForms b norm l c) :=
+  keepsYF_fold _ (keepsY_entryFormsStep norm c) _
+
+end WnVerif.Db
